@@ -161,3 +161,64 @@ Proof.
 Qed.
 
 Print Assumptions all_history_refines_closed.
+
+(* ================================================================== *)
+(* From the empty database: the score premises are invariants         *)
+(* ================================================================== *)
+
+(* the side conditions that are NOT consequences of reachability: what is left of wf_zdb / wf_zalg
+   once "stored scores are numbers, none is -0" is known *)
+Definition wf_zdb' (o : op) (d : db) : Prop :=
+  match o with
+  | ZDeleteRank _ _ _ => zlen (rzset d) <= int64_max
+  | _ => True
+  end.
+Definition wf_zalg' (o : op) (d : db) : Prop :=
+  match o with
+  | ZAlg _ GSum _ | ZStore _ GSum _ _ => wf_zalg o d
+  | _ => True
+  end.
+Definition step_ok' (now : Z) (o : op) (d : db) : Prop :=
+  wf_op o /\ int_ok o /\ wf_hop o /\ legal_choice now d o /\ wf_lop o /\
+  (is_push o = true -> push_free now o d) /\ wf_zop o /\ wf_zdb' o d /\ wf_zalg' o d /\ wf_linsert now o d.
+Fixpoint side_ok' (h : list (Z * op)) (d : db) : Prop :=
+  match h with
+  | [] => True
+  | (t, o) :: r => covered o = true /\ step_ok' t o d /\ side_ok' r (fst (exec_db t o d))
+  end.
+
+Lemma step_ok_of' now o d : nums d -> normals d -> step_ok' now o d -> step_ok now o d.
+Proof.
+  intros N M (W1 & W2 & W3 & W4 & W5 & W6 & W7 & W8 & W9 & W10).
+  unfold step_ok.
+  assert (Z1 : wf_zdb o d).
+  { destruct o; cbn [wf_zdb wf_zdb'] in *; try exact Logic.I; try assumption; exact N. }
+  assert (Z2 : wf_zalg o d).
+  { destruct o; cbn [wf_zalg wf_zalg'] in *; try exact Logic.I.
+    - destruct g; cbn [wf_zalg wf_zalg'] in *; try assumption; split; assumption.
+    - destruct g; cbn [wf_zalg wf_zalg'] in *; try assumption. }
+  repeat match goal with |- _ /\ _ => split end; assumption.
+Qed.
+
+Lemma side_ok_of' : forall h d, nums d -> normals d -> side_ok' h d -> side_ok h d.
+Proof.
+  induction h as [|[t o] h IH]; intros d N M H; [exact Logic.I|].
+  cbn [side_ok' side_ok] in *. destruct H as [Hc [Hs Hr]].
+  split; [exact Hc|]. split; [apply step_ok_of'; assumption|].
+  apply IH; [apply C05_scores_stay_numbers_all; exact N | apply C05_scores_stay_normal_all; exact M | exact Hr].
+Qed.
+
+(* every history from the empty database: the score conditions need not be assumed *)
+Theorem history_from_empty_refines : forall h t0,
+  side_ok' h empty_db -> times_ok t0 h ->
+  Forall2 (fun (po : (Z * op) * out) (so : out) => out_equiv (snd (fst po)) (snd po) so)
+          (combine h (snd (run_impl h empty_db))) (snd (run_spec h []))
+  /\ (forall tl, (match rev h with (t, _) :: _ => t | [] => t0 end) = tl ->
+        R tl (fst (run_impl h empty_db)) (fst (run_spec h [])))
+  /\ Inv (fst (run_impl h empty_db)).
+Proof.
+  intros h t0 Hs Ht.
+  apply all_history_refines_closed; [| exact Ht | split; vm_compute; reflexivity | apply R_empty].
+  apply side_ok_of'; [constructor | constructor | exact Hs].
+Qed.
+Print Assumptions history_from_empty_refines.
